@@ -43,10 +43,13 @@ DOCS = ['{"a": [1, 2, {"a": 3}], "arr": [[1], [1, 2]], "a b": "sp", "\\u00e9": "
 QUERIES = ["$.a", "$\n.a\n[0]", "$[\n'a',\n's'\n]", "$..a", "$[?@.a]", "$.arr[?length(@) == 1]", "$['\\u0061']", "$[?length(@.*) == 1]", "", "$.*", "$.nope",
            "$[", "$[?count(1) == 1]", "$[?nosuch(@)]", "$[9007199254740992]",
            # queries the library rejects at their very first character (the error message shows a line and column)
-           "]", "1", "?@.a", "|", "true", " ]"]
+           "]", "1", "?@.a", "|", "true", " ]",
+           # an expression file that is not valid UTF-8 (bytes: given with -r only)
+           b"$.a\xff", b"\xff\xfe$.a"]
 POINTERS = ["/a/0", "", "/arr/1/0", "/a%20b", "/a b", "/\\u00e9", "/zz", "/a/9", "a", "/s/0",
             # outer blanks: an inline expression is the library's argument as it stands; an expression file is stripped
-            "/a/1 ", "/s ", "/a b ", " /a/0", "/a/1\t"]
+            "/a/1 ", "/s ", "/a b ", " /a/0", "/a/1\t",
+            b"/a\xff", b"/\xc3"]
 PATCHES = ['[{"op": "add", "path": "/b", "value": 1}]', '[{"op": "remove", "path": "/a/0"}]', "[]",
            '[{"op": "add", "path": "/a%20b", "value": 1}]', '[{"op": "replace", "path": "/\\\\u00e9", "value": 1}]',
            '[{"op": "remove", "path": "/zz"}]', '[{"op": "test", "path": "/s", "value": "y"}]', "{}", "[",
@@ -94,11 +97,15 @@ def cases(cmd, i):
     if cmd == "path":
         for di in range(len(DOCS)):
             for inline, ffile, ofile, pretty, nue, ntc, debug in itertools.product(bools, repeat=7):
+                if inline and isinstance(QUERIES[i], bytes):
+                    continue
                 yield dict(cmd="path", expr=QUERIES[i], doc=di, inline=inline, ffile=ffile, ofile=ofile, pretty=pretty,
                            nue=nue, ntc=ntc, debug=debug, uri=False)
     elif cmd == "pointer":
         for di in range(len(DOCS)):
             for inline, ffile, ofile, pretty, nue, uri, debug in itertools.product(bools, repeat=7):
+                if inline and isinstance(POINTERS[i], bytes):
+                    continue
                 yield dict(cmd="pointer", expr=POINTERS[i], doc=di, inline=inline, ffile=ffile, ofile=ofile, pretty=pretty,
                            nue=nue, ntc=False, debug=debug, uri=uri)
     else:
@@ -133,7 +140,10 @@ def library(case):
     from jsonpath.exceptions import JSONPatchError, JSONPathError, JSONPointerError
 
     doc_text = DOCS[case["doc"]]
+    case = _decoded(case)
     try:
+        if isinstance(case["expr"], bytes):
+            case["expr"].decode("utf-8")  # an expression file that cannot be decoded: rejected as such
         if isinstance(doc_text, bytes):
             json.loads(doc_text)  # undecodable bytes: UnicodeDecodeError (a ValueError) = an undecodable document
         if case["cmd"] == "path":
@@ -161,6 +171,15 @@ def library(case):
         # the library itself neither accepts nor properly rejects this input (e.g. an ill-typed query evaluated with
         # type checks disabled): outside C18, which compares the front end with the library
         return ("library-crash", type(e).__name__)
+
+
+def _decoded(case):
+    """Cases travel through JSON in replay files: a bytes expression is stored as {'bytes': [..]}."""
+    e = case.get("expr")
+    if isinstance(e, dict) and "bytes" in e:
+        case = dict(case)
+        case["expr"] = bytes(e["bytes"])
+    return case
 
 
 def _bad_json(t):
@@ -191,8 +210,8 @@ def build_argv(case, tmp, n):
         argv += ["-q" if case["cmd"] == "path" else "-p", case["expr"]]
     else:
         ef = os.path.join(tmp, "expr%d.txt" % n)
-        with open(ef, "w", encoding="utf-8") as f:
-            f.write(case["expr"] + "\n")
+        with open(ef, "wb") as f:
+            f.write((case["expr"] if isinstance(case["expr"], bytes) else case["expr"].encode("utf-8")) + b"\n")
         argv += ["-r", ef]
     if case["ffile"]:
         df = os.path.join(tmp, "doc%d.json" % n)
@@ -255,6 +274,7 @@ def run_process(argv, stdin_text):
 
 def _check(case, acc, tmp, real=False, record=True):
     _N[0] += 1
+    case = _decoded(case)
     if isinstance(DOCS[case["doc"]], bytes) and not case["ffile"]:
         # byte-level document forms are given with -f only: standard input is a text stream decoded by the interpreter
         if record:
@@ -311,10 +331,12 @@ def _check(case, acc, tmp, real=False, record=True):
         c = dict(case)
         c["real"] = real
         c["argv"] = argv
+        if isinstance(c["expr"], bytes):
+            c["expr"] = {"bytes": list(c["expr"])}
         acc.violation("CLI", bad[0], c, expected=bad[1], observed=bad[2])
 
 
-REQUIRE = {"path.ok": 100, "path.rejected": 100, "pointer.ok": 100, "pointer.rejected": 100, "patch.ok": 50,
+REQUIRE = {"reject.UnicodeDecodeError": 10, "path.ok": 100, "path.rejected": 100, "pointer.ok": 100, "pointer.rejected": 100, "patch.ok": 50,
            "patch.rejected": 50, "real-process": 10, "reject.JSONPathSyntaxError": 1, "reject.JSONPathTypeError": 1,
            "reject.JSONPathNameError": 1, "reject.JSONPathIndexError": 1, "reject.JSONDecodeError": 1,
            "reject.JSONPatchTestFailure": 1, "reject.not-a-list": 1}
@@ -335,7 +357,7 @@ def shrink(sub, case):
             c = dict(case)
             c[k] = False
             yield c
-    if not case.get("inline") and case["cmd"] != "patch":
+    if not case.get("inline") and case["cmd"] != "patch" and isinstance(case.get("expr"), str):
         c = dict(case)
         c["inline"] = True
         yield c
